@@ -175,8 +175,11 @@ def check_case(ctx, case):
             ctx.violation("cell_areas_change_when_asked_again", {"first": n, "second": repr(getattr(o_again, "exc", None)) if not o_again.ok else list(numpy.asarray(o_again.value).shape)})
         for i in (idxs[:200] if areas is not None else []):
             w, s, e, nn = b[i]
-            want = R2 * (math.sin(math.radians(nn)) - math.sin(math.radians(s))) * math.radians(e - w)
-            if abs(areas[i] - want) > 1e-9 * want:
+            # cancellation-free reference: sin(n) - sin(s) = 2 cos((n+s)/2) sin((n-s)/2); the library's own difference of two nearly
+            # equal sines carries a relative error of about eps / (sin n - sin s) for tiny tiles, which is allowed for
+            dsin = 2.0 * math.cos(math.radians((nn + s) / 2.0)) * math.sin(math.radians((nn - s) / 2.0))
+            want = R2 * dsin * math.radians(e - w)
+            if abs(areas[i] - want) > (1e-9 + 8 * 2.3e-16 / abs(dsin)) * want:
                 ctx.violation("cell_area_wrong", {"key": keys[i], "got": float(areas[i]), "want": want})
                 break
         if glob and areas is not None:
@@ -234,10 +237,19 @@ def cases(draw):
         g = {"kind": "keys", "keys": keys}
         sel = None if len(keys) <= 60 else draw(st.lists(st.integers(0, len(keys) - 1), min_size=5, max_size=40))
     else:
-        mode = draw(st.sampled_from(["cluster", "uniform", "boundary"]))
+        mode = draw(st.sampled_from(["cluster", "uniform", "boundary", "tight_cluster"]))
         npts = draw(st.integers(0, 120))
         pts = []
-        if mode == "cluster":
+        deep = None
+        if mode == "tight_cluster":
+            # a few events metres apart and a deep maximum zoom (tiles far below a square kilometre, also at high latitude): refinement
+            # goes on until the threshold or the maximum zoom is reached, whatever the size of the tile
+            cx, cy = draw(st.floats(-170, 170)), draw(st.sampled_from([0.3, 35.7, 79.0, 84.9, -84.9, -60.2]))
+            npts = draw(st.integers(2, 12))
+            for _ in range(npts):
+                pts.append([cx + draw(st.floats(-1e-5, 1e-5)), cy + draw(st.floats(-1e-5, 1e-5))])
+            deep = draw(st.integers(12, 20))
+        elif mode == "cluster":
             cx, cy = draw(st.floats(-170, 170)), draw(st.floats(-70, 70))
             for _ in range(npts):
                 pts.append([cx + draw(st.floats(-3, 3)), cy + draw(st.floats(-3, 3))])
@@ -249,7 +261,7 @@ def cases(draw):
                 z = draw(st.integers(1, 6))
                 x = draw(st.integers(0, 2 ** z - 1))
                 pts.append([float(Fraction(x, 2 ** z) * 360 - 180), draw(st.sampled_from([0.0, 10.5, -33.25, 60.125]))])
-        g = {"kind": "catalog", "points": pts, "threshold": draw(st.sampled_from([1, 2, 3, 5, 10, 50])), "zoom": draw(st.integers(2, 7))}
+        g = {"kind": "catalog", "points": pts, "threshold": draw(st.sampled_from([1, 2, 3, 5, 10, 50])), "zoom": deep or draw(st.integers(2, 7))}
         sel = draw(st.lists(st.integers(0, 10**6), min_size=10, max_size=40))
     extra = draw(st.lists(st.tuples(st.floats(-180, 180), st.floats(-90, 90)).map(list), max_size=6))
     return {"grid": g, "sel": sel, "extra": extra}
